@@ -418,8 +418,10 @@ def r2_helpers(repo, rep, cls, sites):
               neg_ = ('int(%s) != %s' % (v_, v_), '%s != int(%s)' % (v_, v_), 'not %s.is_integer()' % v_, 'not float(%s).is_integer()' % v_, 'not int(%s) == %s' % (v_, v_))
               if (q_ == 'all' and t_ and el_ in pos_) or (q_ == 'any' and not t_ and el_ in neg_):
                 return 'int'
-              if 'is_integer' in el_ or 'int(' in el_ or ', int)' in el_:
-                unknown_ = True
+              if q_ == 'any' and t_ and el_ in pos_:
+                continue            # understood, and too weak: some end is integer-valued, not each
+              if 'is_integer' in el_ or re.search(r'(?<![\w.])int\(', el_):
+                unknown_ = True     # (a bare `isinstance(x, int) or isinstance(x, float)` element is the type test, not integrality)
               continue
             if not re.search(r'(?<![\w.])%s(?!\w)' % cre, s_):
               if ('is_integer' in s_ or 'int(' in s_) and re.search(r'(?<![\w.])(value|getattr\(self, attr\))(?!\w)', s_) and not s_.startswith('isinstance('):
